@@ -43,6 +43,19 @@ SUB_KINDS = ["plain_a", "plain_b", "relay_ab", "fwd_ac"]  # fwd_ac: republishes 
 EVENTS = ["pub_a", "pub_b", "wrong_a", "set_p", "set_logdt", "run1", "run2"]
 
 
+NAME_SETS = [("t[0]", "t0", "t?"), ("imu*", "imu", "imu_raw"), ("x.y", "xay", "x+y"), ("ns/imu", "ns/mag", "ns"), ("A", "a", "a "), ("[ab]", "a", "b"), ("imu", "Imu", "imu$")]
+
+
+def _foreign_imu():
+    """an unrelated message class that happens to be called Imu (a user's own record with another layout)"""
+    def __init__(self):
+        msgs.Msg.__init__(self, self.dtype)
+    return type("Imu", (msgs.Msg,), dict(dtype=np.dtype([("time", "f8"), ("pressure", "f8")]), __init__=__init__))()
+
+
+WRONG_KINDS = [("Mag", lambda: msgs.Mag()), ("foreign_class_named_Imu", _foreign_imu), ("base_Msg_with_Imu_layout", lambda: msgs.Msg(msgs.Imu.dtype)), ("Params_like", lambda: msgs.Msg(np.dtype([("time", "f8")])))]
+
+
 def topologies(tier):
     tops = []
     sub_sets = []
@@ -54,6 +67,11 @@ def topologies(tier):
     for subs in sub_sets:
         for logger in (True, False):
             tops.append(dict(subs=list(subs), logger=logger, nodes=[True, False], periods=(1, 2)))
+    # topic NAMES: the bus treats a topic as an opaque string; names that a pattern language, a path or a dtype field parser would read
+    # differently (and that collide once "normalised") must behave exactly like a, b, c
+    for names in NAME_SETS:
+        for subs in ([0, 1, 2], [3, 0, 1], [0, 0, 1]):
+            tops.append(dict(subs=subs, logger=(subs[0] == 0), nodes=[True], periods=(1, 2), names=dict(zip("abc", names))))
     # parameter-node variants and period variants on a fixed subscriber set
     for nodes in ([], [True], [False], [True, True], [False, True]):
         for periods in ((2, 3), (1, 1), None):
@@ -81,7 +99,9 @@ class Bus:
         sched.ControlledCore.observer = _dispatch_observer
         self.core = c = sched.ControlledCore()
         _BUSES[id(c)] = self
-        self.pub = {"a": uros.Publisher(c, "a", msgs.Imu), "b": uros.Publisher(c, "b", msgs.Mag), "c": uros.Publisher(c, "c", msgs.Imu)}
+        self.nm = nm = top.get("names") or {"a": "a", "b": "b", "c": "c"}
+        self.pub = {"a": uros.Publisher(c, nm["a"], msgs.Imu), "b": uros.Publisher(c, nm["b"], msgs.Mag), "c": uros.Publisher(c, nm["c"], msgs.Imu)}
+        self.n_wrong = 0
         self.ref_pubs = {"a": [], "b": [], "c": []}  # reference model: order of publish calls per topic
         self.latest = {"a": None, "b": None, "c": None}
         self.inbox = []
@@ -98,7 +118,7 @@ class Bus:
                 cb = (lambda i: lambda msg: self._forward(i, msg))(i)
             else:
                 cb = (lambda i, topic: lambda msg: self.inbox[i].append(float(msg.data["time"])))(i, topic)
-            uros.Subscriber(c, topic, msgs.Imu if topic == "a" else msgs.Mag, cb)
+            uros.Subscriber(c, nm[topic], msgs.Imu if topic == "a" else msgs.Mag, cb)
         self.params = []
         for n, follows in enumerate(top["nodes"]):
             # node 0 declares its default with an integer literal (as the estimator does for mag_decl), the others with a float
@@ -176,7 +196,7 @@ class Bus:
         while self.rows_seen < n:
             row = self.logger.data_list[self.rows_seen]
             self.ref_rows.append(dict(time=float(c.now), a=self.latest["a"], b=self.latest["b"], c=self.latest["c"]))
-            got = dict(time=float(row["time"]), a=float(row["a"]["time"]), b=float(row["b"]["time"]), c=float(row["c"]["time"]))
+            got = dict(time=float(row["time"]), a=float(row[self.nm["a"]]["time"]), b=float(row[self.nm["b"]]["time"]), c=float(row[self.nm["c"]]["time"]))
             want = self.ref_rows[-1]
             for k in ("a", "b", "c"):
                 w = want[k]
@@ -212,15 +232,20 @@ class Bus:
             self.do_publish(ev[-1])
         elif ev == "wrong_a":
             before = [list(b) for b in self.inbox]
+            # the kinds of wrong object take turns (first Mag, then a foreign class that is also called Imu, ...)
+            kind, mk = WRONG_KINDS[self.n_wrong % len(WRONG_KINDS)]
+            self.n_wrong += 1
+            wrong = mk()
+            wrong.data["time"] = -7.0
             try:
-                self.pub["a"].publish(msgs.Mag())
-                self.fails.append(("wrong_type_rejected_with_ValueError", dict(note="no exception")))
+                self.pub["a"].publish(wrong)
+                self.fails.append(("wrong_type_rejected_with_ValueError", dict(note="no exception", wrong_object=kind)))
             except ValueError:
                 pass
             except Exception as ex:
-                self.fails.append(("wrong_type_rejected_with_ValueError", dict(raised=type(ex).__name__)))
+                self.fails.append(("wrong_type_rejected_with_ValueError", dict(raised=type(ex).__name__, wrong_object=kind)))
             if [list(b) for b in self.inbox] != before:
-                self.fails.append(("wrong_type_not_delivered", dict(before=before, after=[list(b) for b in self.inbox])))
+                self.fails.append(("wrong_type_not_delivered", dict(before=before, after=[list(b) for b in self.inbox], wrong_object=kind)))
         elif ev == "set_p":
             if not self.params:
                 return False
@@ -259,7 +284,7 @@ class Bus:
         self.check_quiescent("after " + ev)
         if not self.lock_checked and self.logger is not None:
             self.lock_checked = True
-            for what, fn in (("Subscriber", lambda: uros.Subscriber(c, "a", msgs.Imu, lambda m: None)), ("Publisher", lambda: uros.Publisher(c, "zz", msgs.Imu)),
+            for what, fn in (("Subscriber", lambda: uros.Subscriber(c, self.nm["a"], msgs.Imu, lambda m: None)), ("Publisher", lambda: uros.Publisher(c, "zz", msgs.Imu)),
                              ("Param", lambda: uros.Param(c, "late/p", 0.0, "f8"))):
                 try:
                     fn()
